@@ -225,6 +225,7 @@ hstubs! { #[kani::unwind(4)] fn c11_c14_set_features_step() {
     let kb = Arc::new(KB::new(1, 256, offered, vec![1]));
     let mut h = mk_handler(kb.clone(), 1);
     let (ready, en, has_kick) = arbitrary_ring_state(&h);
+    h.vrings[0].set_queue_event_idx(kani::any());      // whatever an earlier SET_FEATURES left behind
     let f: u64 = kani::any();
     let r = h.set_features(f);
     if f & !offered != 0 {
@@ -320,6 +321,7 @@ hstubs! { #[kani::unwind(4)] fn c11_two_rings_set_features_reset_device_thorough
     let mut h = mk_handler(kb.clone(), 2);
     let st = arbitrary_two_ring_state(&h);
     if kani::any() {
+        h.vrings[0].set_queue_event_idx(kani::any()); h.vrings[1].set_queue_event_idx(kani::any());   // left behind by an earlier SET_FEATURES
         let f: u64 = kani::any();
         assert!(h.set_features(f).is_ok());
         let mut i = 0;
